@@ -81,3 +81,81 @@ pub fn cte32_stub(a: &[u8; 32], b: &[u8; 32]) -> bool {
 }
 
 pub fn fmt_stub(_args: std::fmt::Arguments<'_>) -> String { String::new() }
+
+// ------------------------------------------------------------------------------------------------
+// CBOR: ciborium's byte-level encoder is replaced (under Kani only) by the model codec — an
+// injective, fixed-width, tagged encoding of the serde data model. p2panda's own Serialize impls
+// run unchanged on top of it. Natively the real ciborium runs.
+// ------------------------------------------------------------------------------------------------
+pub fn encode_cbor_stub<T: serde::Serialize>(value: &T) -> Result<Vec<u8>, p2panda_core::cbor::EncodeError> {
+    match crate::mcodec::to_vec(value) {
+        Ok(v) => Ok(v),
+        Err(_) => Err(p2panda_core::cbor::EncodeError::Value(String::new())),
+    }
+}
+
+// ------------------------------------------------------------------------------------------------
+// Signatures (idealised, EUF-CMA): exactly one signature exists in the world of a harness — the one
+// the honest author produced with `sign_honestly`. `VerifyingKey::verify` accepts iff key, message
+// bytes and signature are exactly the recorded ones. Natively real Ed25519 signs and verifies.
+// ------------------------------------------------------------------------------------------------
+pub const MAXMSG: usize = 400;
+pub static mut SIGNED_LEN: usize = usize::MAX; // usize::MAX = nothing signed yet
+pub static mut SIGNED_MSG: [u8; MAXMSG] = [0; MAXMSG];
+pub static mut SIGNED_SIG: [u8; 64] = [0; 64];
+pub static mut SIGNED_KEY: u8 = 0;
+pub static mut VERIFY_CALLS: u32 = 0;
+
+pub fn verify_stub(key: &VerifyingKey, bytes: &[u8], signature: &p2panda_core::Signature) -> bool {
+    unsafe {
+        VERIFY_CALLS += 1;
+        if SIGNED_LEN == usize::MAX || bytes.len() != SIGNED_LEN { return false; }
+        if *key != crate::env::key(SIGNED_KEY) { return false; }
+        let sb = signature.to_bytes();
+        let mut i = 0;
+        while i < 64 { if sb[i] != SIGNED_SIG[i] { return false; } i += 1; }
+        let mut i = 0;
+        while i < bytes.len() { if bytes[i] != SIGNED_MSG[i] { return false; } i += 1; }
+        true
+    }
+}
+
+/// The honest author `author` signs `header` (signature field is overwritten).
+pub fn sign_honestly<E: p2panda_core::Extensions>(header: &mut p2panda_core::Header<E>, author: u8) {
+    let sig = crate::sym::any_bytes::<64>();
+    header.verifying_key = key(author);
+    #[cfg(kani)]
+    {
+        header.signature = None;
+        let bytes = header.to_bytes();
+        unsafe {
+            assert!(bytes.len() <= MAXMSG, "model: signed message fits the oracle buffer");
+            SIGNED_LEN = bytes.len();
+            let mut i = 0;
+            while i < bytes.len() { SIGNED_MSG[i] = bytes[i]; i += 1; }
+            SIGNED_SIG = sig;
+            SIGNED_KEY = author;
+        }
+        std::mem::forget(bytes);
+        header.signature = Some(p2panda_core::Signature::from_bytes(&sig));
+    }
+    #[cfg(not(kani))]
+    {
+        let _ = sig;
+        let sk = p2panda_core::SigningKey::from_bytes(&[author.wrapping_add(1); 32]);
+        header.sign(&sk);
+    }
+}
+
+// ------------------------------------------------------------------------------------------------
+// Body hashing: BLAKE3 replaced (under Kani) by an injective function for bodies of <= 4 bytes.
+// ------------------------------------------------------------------------------------------------
+pub fn digest_stub<T: AsRef<[u8]>>(buf: T) -> Hash {
+    let b = buf.as_ref();
+    let mut out = [0u8; 32];
+    out[0] = b.len() as u8;
+    out[31] = 0xB0; // domain tag: never equal to a free symbolic hash by construction only if assumed
+    let mut i = 0;
+    while i < b.len() && i < 4 { out[1 + i] = b[i]; i += 1; }
+    Hash::from_bytes(out)
+}
